@@ -16,12 +16,15 @@ TAG = 'src/control/tag.rs'
 BM = 'src/control/bitmask.rs'
 GEN = 'src/control/group/generic.rs'
 SERDE = 'src/external_trait_impls/serde.rs'
+SET = 'src/set.rs'
 
 
 def I(file, ctx, fn, impl=None, key=None, nth=None, rename=None):
     return dict(file=file, ctx=ctx, fn=fn, impl=impl, key=key or ((impl + '::' if impl else '') + fn),
                 nth=nth, rename=rename)
 
+
+HSCTX = r'^impl < T , S , A > HashSet < T , S , A > where'
 
 UNITS = {
     # C17 / C08 / C12 / C13: capacity, layout and probe arithmetic
@@ -222,6 +225,25 @@ UNITS = {
             I(RAW, r'^impl RawTableInner$', 'new_uninitialized', impl='RawTableInner'),
             I(RAW, r'^impl RawTableInner$', 'fallible_with_capacity', impl='RawTableInner'),
             I(RAW, r'^impl RawTableInner$', 'prepare_resize', impl='RawTableInner'),
+        ],
+    ),
+    # C07: HashSet's set algebra over an abstract set view
+    'set': dict(
+        widths=[16],
+        prelude='preludes/set.rs',
+        specs='contracts/set.vspec',
+        lemmas=['lemmas/set_lemmas.rs'],
+        extra='set_rules',
+        items=[
+            I(SET, r"^impl < 'a , T , S , A > Iterator for Intersection < 'a , T , S , A > where", 'next', impl="Intersection<'a, T>", key='Intersection::next'),
+            I(SET, r"^impl < 'a , T , S , A > Iterator for Difference < 'a , T , S , A > where", 'next', impl="Difference<'a, T>", key='Difference::next'),
+            I(SET, HSCTX, 'difference', impl='HashSet<T>', key='HashSet::difference'),
+            I(SET, HSCTX, 'intersection', impl='HashSet<T>', key='HashSet::intersection'),
+            I(SET, HSCTX, 'union', impl='HashSet<T>', key='HashSet::union'),
+            I(SET, HSCTX, 'symmetric_difference', impl='HashSet<T>', key='HashSet::symmetric_difference'),
+            I(SET, HSCTX, 'is_subset', impl='HashSet<T>', key='HashSet::is_subset'),
+            I(SET, HSCTX, 'is_superset', impl='HashSet<T>', key='HashSet::is_superset'),
+            I(SET, HSCTX, 'is_disjoint', impl='HashSet<T>', key='HashSet::is_disjoint'),
         ],
     ),
 }
@@ -887,6 +909,51 @@ def alloc_rules(toks, i, out, hit):
     return iter_rules(toks, i, out, hit)
 
 
+def set_rules(toks, i, out, hit):
+    """unit `set`:
+       R24  the hasher / allocator type parameters are not part of the view: `, S, A>` in a type -> `>`
+       R23  `X.all(|V| E)` (Iterator::all) -> `{ let mut it_ = X; let mut all_ = true; loop { match it_.next() {
+            Some(V) => { if !(E) { all_ = false; break; } } None => { break; } } } all_ }`"""
+    t = toks[i]
+    n = len(toks)
+    T = extract.T
+
+    def seq(k, *texts):
+        return k + len(texts) <= n and all(toks[k + a].text == x for a, x in enumerate(texts))
+    if t.text == ',' and seq(i + 1, 'S', ',', 'A', '>'):
+        out.append(T('>', ''))
+        hit('R24_hasher_allocator_params_dropped')
+        return i + 5
+    if t.text == '.' and seq(i + 1, 'all', '(', '|') and toks[i + 4].kind == 'id' and seq(i + 5, '|'):
+        c = extract._find_close(toks, i + 2)
+        E = extract.rewrite(toks[i + 6:c], set(), _HITS, set_rules)
+        V = toks[i + 4].text
+        # receiver: back to the previous `&&`, `||`, `=`, `;`, `{` or `(` at depth 0
+        k = len(out) - 1
+        depth = 0
+        while k >= 0:
+            x = out[k].text
+            if x in (')', ']'):
+                depth += 1
+            elif x in ('(', '['):
+                if depth == 0:
+                    break
+                depth -= 1
+            elif depth == 0 and x in ('&', '|', '=', ';', '{'):
+                break
+            k -= 1
+        recv = out[k + 1:]
+        del out[k + 1:]
+        out.extend([T('{'), T('let'), T('mut'), T('it_'), T('=')] + recv + [T(';', ''), T('let'), T('mut'), T('all_'), T('='), T('true'), T(';', ''),
+                    T('loop', '\n'), T('{'), T('match'), T('it_'), T('.', ''), T('next', ''), T('(', ''), T(')', ''), T('{'),
+                    T('Some'), T('(', ''), T(V, ''), T(')', ''), T('='), T('>', ''), T('{'), T('if'), T('!'), T('(', '')] + E +
+                   [T(')', ''), T('{'), T('all_'), T('='), T('false'), T(';', ''), T('break'), T(';', ''), T('}'), T('}'),
+                    T('None'), T('='), T('>', ''), T('{'), T('break'), T(';', ''), T('}'), T('}'), T('}'), T('all_', '\n'), T('}')])
+        hit('R23_iterator_all_to_loop')
+        return c + 1
+    return None
+
+
 def generate(unit_name, width, outdir):
     u = UNITS[unit_name]
     specs = {}
@@ -926,7 +993,7 @@ def generate(unit_name, width, outdir):
              'use vstd::prelude::*;\n#[allow(unused_imports)]\nuse core::mem;\n#[allow(unused_imports)]\nuse vstd::arithmetic::power2::*;\n#[allow(unused_imports)]\nuse vstd::arithmetic::div_mod::*;\n#[allow(unused_imports)]\nuse vstd::arithmetic::mul::*;\n#[allow(unused_imports)]\nuse vstd::bits::*;\n#[allow(unused_imports)]\nuse vstd::set_lib::*;\nverus! {\n', prelude, '\n']
     parts += [f + '\n\n' for f in free]
     for name, fns in impls.items():
-        gen = '<T>' if name.endswith('<T>') else ''
+        gen = name[name.index('<'):] if '<' in name else ''
         parts.append('impl%s %s {\n%s\n}\n\n' % (gen, name, '\n\n'.join(fns)))
     for lf in u.get('lemmas', []):
         parts.append('// ---- lemma file %s ----\n' % lf)
